@@ -799,6 +799,18 @@ class RGraph:
             for rbuild in prev_branch.rbuilds.values()
             for iid, commit in rbuild.rcommits.items()
         } if prev_branch is not None else {}
+        if prev_branch is not None:
+            # the head of the previous branch may belong to one of the even
+            # earlier branches. Commits reachable from it are not included
+            # into builds of the previous branch, but still are candidates
+            visited = set()
+            rc_stack = list(prev_branch.rheads)
+            while rc_stack:
+                rc = rc_stack.pop()
+                if rc.iid not in visited:
+                    visited.add(rc.iid)
+                    all_commits_prev_branch.setdefault(rc.iid, rc)
+                    rc_stack.extend(rc.parents)
 
         all_commits_in_this_branch = {
             iid
